@@ -152,7 +152,9 @@ func discharge(file string, timeoutS int) SolveResult {
 		if x.Status == "error" {
 			errs = append(errs, x.Solver+": "+firstLines(x.Output, 3))
 		}
-		if last.Status == "" || x.Status == "unknown" {
+		// keep the most informative undecided answer: unknown > timeout > error
+		rank := map[string]int{"": 0, "error": 1, "timeout": 2, "unknown": 3}
+		if rank[x.Status] > rank[last.Status] {
 			last = x
 		}
 	}
